@@ -333,6 +333,9 @@ NUM_SHAPES = [
     ("two_conv", "INT( V ) + VAL( V$ )"),
     ("len", "LEN( V$ )"),
     ("hex", "&HFF"),
+    ("val_lit", 'VAL( "12" )'),
+    ("instr_lit", 'INSTR( 1 , "AB" , "B" )'),
+    ("asc_lit", 'ASC( "A" )'),
 ]
 STR_SHAPES = [
     ("lit", '"X"'),
